@@ -77,6 +77,16 @@ func (k msgServer) RemoveRateLimit(goCtx context.Context, msg *types.MsgRemoveRa
 	}
 
 	k.Keeper.RemoveRateLimit(ctx, msg.Denom, msg.ChannelOrClientId)
+
+	// The quota window ends with the rate limit. Remove all pending packet sequence numbers
+	// so they cannot be reverted against a rate limit that is added again later.
+	if err := k.RemoveAllChannelPendingSendPackets(ctx, msg.ChannelOrClientId, msg.Denom); err != nil {
+		return nil, err
+	}
+	if err := k.RemoveAllChannelPendingReceivePackets(ctx, msg.ChannelOrClientId, msg.Denom); err != nil {
+		return nil, err
+	}
+
 	return &types.MsgRemoveRateLimitResponse{}, nil
 }
 
